@@ -32,6 +32,13 @@ class SymCtx(BaseCtx):
         if name in self.symbols: raise EngineError('duplicate symbol ' + name)
         v = fresh(name, lo, hi)
         self.symbols[name] = (v, lo, hi)
+        if isinstance(v, SymInt):
+            # the bit-vector variable ranges over its whole width: constrain it to the declared interval
+            if v.signed:
+                self.I.solver.add(v.t >= z3.BitVecVal(lo, v.w), v.t <= z3.BitVecVal(hi, v.w))
+            else:
+                if lo > 0: self.I.solver.add(z3.UGE(v.t, z3.BitVecVal(lo, v.w)))
+                if hi < (1 << v.w) - 1: self.I.solver.add(z3.ULE(v.t, z3.BitVecVal(hi, v.w)))
         return v
     def bytes(self, name, n):
         return from_items([self.int('%s[%d]' % (name, i), 0, 255) for i in range(n)])
@@ -48,6 +55,8 @@ class SymCtx(BaseCtx):
     def setattr(self, o, n, v): return self.I.setattr(o, n, v)
     def len(self, o): return self.I.call(len, (o,))
     def list(self, o): return list(self.I.iter(o))
+    def replace(self, f, handler):
+        self.I.contracts[f] = handler
     def assume(self, cond):
         self.I.assume(cond)
     def ensure(self, label, cond, **info):
@@ -132,7 +141,7 @@ def solve(assertions, negated_goal, timeout_ms):
             os.unlink(fn)
         dt = time.time() - t0
         if out == 'unsat': return 'unsat', None, dt, 'cvc5'
-        if out == 'sat': return 'sat-nomodel', None, dt, 'cvc5'
+        # cvc5 'sat' without a model is not accepted as a refutation (only z3 models or native failures are)
     except Exception as e:
         pass
     return 'unknown', None, time.time() - t0, 'z3+cvc5'
@@ -233,22 +242,27 @@ def _run_symbolic(ob, case, res, tmo, seed):
             refuted = {'label': false_label, 'inputs': inputs, 'detail': 'postcondition is false on a feasible path'}
             break
         if not terms: continue
-        neg = z3.Not(z3.And([t for _, t in terms])) if len(terms) > 1 else z3.Not(terms[0][1])
-        v, m, dt, be = solve(pc, neg, tmo * 1000)
-        res['solver_s'] += dt
-        res['backend'][be] = res['backend'].get(be, 0) + 1
-        if v == 'unsat': continue
-        if v == 'sat':
-            lab = terms[0][0]
-            for l, t in terms:
-                if z3.is_false(m.eval(t, model_completion=True)): lab = l; break
-            refuted = {'label': lab, 'inputs': model_inputs(m, c.symbols), 'detail': 'solver model (%s)' % be}
+        # each postcondition is its own query (after a cheap syntactic attempt): a conjunction of many goals is
+        # much harder for the solver than its members, and a named goal is what a violation report needs
+        stop = False
+        for l, t in terms:
+            ts = z3.simplify(t)
+            if z3.is_true(ts):
+                res['backend']['rewriter'] = res['backend'].get('rewriter', 0) + 1
+                continue
+            v, m, dt, be = solve(pc, z3.Not(ts), tmo * 1000)
+            res['solver_s'] += dt
+            res['backend'][be] = res['backend'].get(be, 0) + 1
+            if v == 'unsat': continue
+            if v == 'sat':
+                refuted = {'label': l, 'inputs': model_inputs(m, c.symbols), 'detail': 'solver model (%s)' % be}
+            elif v == 'sat-nomodel':
+                refuted = {'label': l, 'inputs': {}, 'detail': 'cvc5 reports sat; z3 unknown; no model'}
+            else:
+                undecided = 'solver unknown on both back ends after %.0fs (clause %s)' % (dt, l)
+            stop = True
             break
-        if v == 'sat-nomodel':
-            refuted = {'label': terms[0][0], 'inputs': {}, 'detail': 'cvc5 reports sat; z3 unknown; no model'}
-            break
-        undecided = 'solver unknown on both back ends after %.0fs' % dt
-        break
+        if stop: break
     res['goals'] = ngoals
     res['used_contracts'] = sorted(used); res['evaluated'] = sorted(evaluated)
     res['solver_s'] = round(res['solver_s'], 3)
@@ -271,6 +285,7 @@ def _differential(ob, case, seed, symbols, contracts, n=2):
     """concrete differential: the evaluator and native CPython must agree on every call of the body"""
     rng = random.Random((seed, ob.oid).__repr__())
     agree = 0
+    val.ACTIVE = set()          # concrete runs evaluate every spec function by its body
     for k in range(n):
         inputs = {name: rng.randint(lo, hi) for name, (v, lo, hi) in symbols.items()}
         a = TraceCtx(inputs, case)
